@@ -210,6 +210,7 @@ def run(ctx):
 
         def run_e(st):
             I.st = st
+            I.steps = 0   # the step budget guards a single path
             v = [I.atom_form(("v", i)) for i in range(216)]
             e32 = [I.atom_form(("e", i)) for i in range(32)]
             cc = AInt([I.atom_form(("cc", i)) for i in range(4)])
@@ -222,20 +223,37 @@ def run(ctx):
             return full, I.call(repo.find_method(b.cls, "as_bits"), [b], {}), b
 
         bad = []
+        unconfirmed = []
         n_ok = 0
         labels = []
-        for st, (k, v) in explore(run_e, max_paths=2000):
+        for st, (k, v) in explore(run_e, max_paths=3000):
             I.st = st
+            assumed_count = any(isinstance(c, tuple) and c and c[0] == "popcnt" for c in st.conds)
             if k == "abort":
+                if isinstance(v, PartialRaise):
+                    (unconfirmed if assumed_count else bad).append(f"{v} on path {[l for l, d in zip(st.labels, st.decisions) if d][-2:]}")
+                    continue
+                if assumed_count:
+                    unconfirmed.append(f"not analysable beyond the assumed bit-count threshold: {v}")
+                    continue
                 raise AnalysisError(f"{key}: {v}")
             if k == "raise":
-                bad.append(f"raises {v} on path {[l for l, d in zip(st.labels, st.decisions) if d][-2:]}")
+                (unconfirmed if assumed_count else bad).append(f"raises {v} on path {[l for l, d in zip(st.labels, st.decisions) if d][-2:]}")
                 continue
             n_ok += 1
             full, out, b = v
             if not (isinstance(out, ABits) and I.simp_bits(out.items) == I.simp_bits(full.items)):
                 taken = [l for l, d in zip(st.labels, st.decisions) if d]
-                bad.append(f"bits differ on path {taken[-2:]} (sync resolved to {b.attrs.get('sync_or_embedded_signalling')})")
+                wit = None
+                if isinstance(out, ABits) and len(out.items) == len(full.items):
+                    from sa.bitabs_models import popcount_witness
+                    wit = popcount_witness(I, st, [x ^ y for x, y in zip(I.simp_bits(out.items), I.simp_bits(full.items))])
+                if wit is not None and not wit[0]:
+                    unconfirmed.append(f"path {taken[-2:]}: {wit[1]}")   # possibly an infeasible path: never reported as a violation
+                    continue
+                bad.append(f"bits differ on path {taken[-2:]} (sync resolved to {b.attrs.get('sync_or_embedded_signalling')})" + (f"; {wit[1]}" if wit else ""))
+        if unconfirmed and not bad:
+            raise AnalysisError(f"{key}: differences on {len(unconfirmed)} path(s) that assumed a bit-count threshold could not be confirmed by a witness, e.g. {unconfirmed[0]}")
         ctx.ob("burst/voice-emb", key, not bad and n_ok > 0, f"{n_ok} feasible path(s); " + ("; ".join(bad[:3]) or "identical forms on all of them"), as_bits.loc)
 
     # ---- subclasses overriding one direction only
